@@ -1,6 +1,7 @@
 ----------------------------- MODULE MCStbcContainer -----------------------------
 (* Bounded exhaustive check of StbcContainer.                                              *)
-(*  mode "frame": every section table of up to 3 entries on a grid of offsets / lengths    *)
+(*  mode "frame": every section table of up to MaxEntries entries on a grid of offsets /   *)
+(*     lengths                                                                             *)
 (*     (overlap by one byte, adjacent, zero length, end = file length, one past the end,   *)
 (*     unaligned, inside the table) and every combination of header defects.  Checked:     *)
 (*     the decision shaped like decode.rs (sort + scan, checks in code order) agrees with  *)
@@ -13,7 +14,7 @@
 (*     that decodes back to the same sections (exact round trip at the framing level).     *)
 (* The same instance exports what it explores as scripts for the real code (Export).       *)
 EXTENDS StbcContainer, Json
-CONSTANTS Modes, ExportScripts
+CONSTANTS Modes, ExportScripts, MaxEntries
 
 VARIABLES mode, hist       \* hist: the script of this behaviour (observation only, hidden by View)
 mvars == <<pc, c, out, mem, mode, hist>>
@@ -23,7 +24,9 @@ View == <<pc, c, out, mem, mode>>
 PB(n) == Align4(HeaderLen + n * EntrySize)
 OffDeltas == {-4, 0, 1, 4, 8, 12}
 LenSet == {0, 1, 4, 5, 8}
-Entries(n) == {[id |-> 32769, off |-> PB(n) + d, length |-> ln] : d \in OffDeltas, ln \in LenSet}
+\* (a coarser grid for tables of more than 3 entries keeps the thorough instance in minutes)
+Entries(n) == IF n <= 3 THEN {[id |-> 32769, off |-> PB(n) + d, length |-> ln] : d \in OffDeltas, ln \in LenSet}
+              ELSE {[id |-> 32769, off |-> PB(n) + d, length |-> ln] : d \in {0, 4, 8, 12}, ln \in {0, 4, 5}}
 GoodHeader(n, t, L) == [len |-> L, magicOk |-> TRUE, major |-> 1, minor |-> 1, headerSize |-> 24, count |-> n, tableOff |-> 24,
                         crcFlag |-> TRUE, crcOk |-> TRUE, table |-> t]
 \* four well-formed sections behind the largest table position used below
@@ -74,7 +77,7 @@ LayoutMut == [kind |-> "layout", cls |-> "", newc |-> 0, rem |-> 0, single |-> F
 FrameInit(f) == c = [frame |-> f, mut |-> LayoutMut, img |-> 0] /\ hist = [kind |-> "frame", from |-> "tlc", layout |-> f]
 Init == /\ mode \in Modes /\ out = NoOut /\ mem = 0
         /\ \/ /\ mode = "frame" /\ pc = "mutated"
-              /\ \/ \E n \in 0..3 : \E t \in [1..n -> Entries(n)], dl \in {8, 12, 13} : FrameInit(GoodHeader(n, t, PB(n) + dl))
+              /\ \/ \E n \in 0..MaxEntries : \E t \in [1..n -> Entries(n)], dl \in {8, 12, 13} : FrameInit(GoodHeader(n, t, PB(n) + dl))
                  \/ \E L \in {10, 23, 24, 60, 100, 112, 116}, mg \in BOOLEAN, mj \in {0, 1, 2}, hs \in {20, 23, 24, 25, 28},
                        to \in {20, 24, 26, 28, 36, 40, Big, Big + 1}, n \in 0..4, cf \in BOOLEAN, ck \in BOOLEAN :
                          FrameInit(HeaderFrame(L, mg, mj, hs, to, n, cf, ck))
